@@ -301,6 +301,8 @@ CLAIMS = {
              "correct), z3; inside the function marked no_sanitize(\"shift\") shifts follow x86-64/AArch64 semantics; IEEE division and "
              "int->double conversion are uninterpreted functions shared with the spec. Also under contract for this property: "
              "__Pyx_PyLong_{Eq,Ne}ObjC (contracts/compare.py) and the float-constant binops __Pyx_PyFloat_* (contracts/pyfloat_binop.py). "
+             "Also the float-with-int fast paths of the object-object helpers __Pyx_PyNumber_{Add,Subtract,Multiply}_{xfloat,xint}_object "
+             "(PyNumberBinop: exact float of the IEEE operation on a and (double) n, sign of zero included; kernel: one exact float, one exact int). "
              "The call-site conditions themselves are discharged at their source: the gate of Optimize.optimise_numeric_binop (fragment "
              "unit, all nodes and operators) lets a helper be selected only with |int constant| <= 2**30 and a non-zero constant divisor. "
              "NOT covered: And/Or/Xor (symbolic-symbolic bit operations), Multiply, the non-int operand paths of PyLongBinop, "
